@@ -69,6 +69,15 @@ def handle (j : Json) : IO Unit := do
     let ok := guardOk (jget impl "guard")
     emit case true ok (s!"xlate.{jstr (jget j "how")}." ++ (if jbool (jget j "stream") then "stream" else "resp"))
       (if ok then "" else "translator-panic-or-hang") (if ok then "" else s!"{(jget impl "guard").compress} {jstr (jget impl "outcome")}")
+  | "recover" =>
+    -- production wiring: the listing fetched when the endpoint recovers is unusable; by errorKeeps the endpoint's
+    -- previous catalogue stays (the endpoint is healthy again and still serves those models)
+    if jstr (jget impl "start_err") != "" then emit case false true "start-error" "" (jstr (jget impl "start_err")); return
+    let before := jstrList (jget impl "before")
+    let after := jstrList (jget impl "after")
+    let ok := Olla.Spec.C20.errorKeeps before after true && before.length == 2 && jnat (jget impl "lookup_m1") == 1
+    emit case ok ok s!"recover.{jstr (jget j "how")}" (if ok then "" else "catalogue-lost-on-recovery-with-bad-listing")
+      (if ok then "" else s!"endpoint listed {before}, failed a health check (status {jstr (jget impl "status_when_down")}), recovered (status {jstr (jget impl "status_after")}) and answered the listing request with an unusable body ({jstr (jget j "how")}): the registry now lists {after} for it, model -> endpoints finds {jnat (jget impl "lookup_m1")}")
   | "relay" =>
     if jstr (jget impl "start_err") != "" then emit case false true "start-error" "" (jstr (jget impl "start_err")); return
     -- the request ended (whatever the answer) and the stack still serves the next request
